@@ -5,7 +5,12 @@ from checks import kvgen as G, c01
 
 LEVEL = "proof"
 MODULE = "IwModel.Props.C09"
-THEOREMS = []
+THEOREMS = ["IwModel.C09." + t for t in (
+    "next_spec", "prev_spec", "scan_from", "scan_back_from", "ahead_at",
+    "put_new_keeps_cursors", "put_overwrite_keeps_cursors", "cursor_set_keeps_cursors",
+    "del_keeps_cursors", "cursor_del_keeps_cursors", "cursVia_lookup",
+    "history_keeps_cursor", "history_forward", "scan_through_history", "scan_back_through_history",
+    "returned_is_live", "untouched_once", "f38_witness")]
 MANIFEST = dict(
     level="proof",
     text=("Lean 4 theorems over the cursor fix-ups of the node-level KV model (insert, remove, split at the pivot, node removal) "
